@@ -32,10 +32,10 @@ def gen(ctx):
     yield dict(kind="tot", n=[[2, 2, 2]], shape="1d", k=3, rule=777, form="class")
     for _ in range(ctx.n(150, 1500)):
         # one process, one rule number, different k / neighbourhood sizes in both orders (a cache keyed by too little)
-        rule = rng.choice([777, 30, 6, 1, rng.getrandbits(12), rng.getrandbits(6)])
+        rule = rng.choice([777, 30, 6, 1, 3 ** 8, 2 ** 5, rng.getrandbits(12), rng.getrandbits(6)])
         seq = []
-        for k in rng.choice([[4, 3, 2], [2, 3, 4], [3, 3, 2], [5, 2, 5]]):
-            for _ in range(rng.randint(1, 2)):
+        for k in rng.choice([[4, 3, 2], [2, 3, 4], [3, 3, 3], [2, 2, 2], [5, 2, 5], [3, 3, 2]]):
+            for _ in range(rng.randint(1, 3)):
                 n, shape = shape_cells(rng, k)
                 seq.append(dict(kind="tot", n=n, shape=shape, k=k, rule=rule, form=rng.choice(["func", "class"])))
         yield dict(kind="seq", seq=seq)
@@ -76,29 +76,36 @@ def make_n(c):
     return np.array(c["n"])
 
 
-def call(c):
+def call(c, shared=None):
     import cellpylib as cpl
     n = make_n(c)
     if c["form"] == "func":
         return int(cpl.totalistic_rule(n, c["k"], c["rule"]))
+    if shared is not None:
+        key = (c["k"], c["rule"])
+        if key not in shared:
+            shared[key] = cpl.TotalisticRule(c["k"], c["rule"])
+        return int(shared[key](n, (1, 1), 3))
     return int(cpl.TotalisticRule(c["k"], c["rule"])(n, (1, 1), 3))
 
 
-def impl(c):
+def impl(c, shared=None):
     if c["kind"] == "seq":
-        return "|".join(impl(x) for x in c["seq"])
+        sh = {}
+        return "|".join(impl(x, sh) for x in c["seq"])
     try:
-        return "ok %d" % call(c)
+        return "ok %d" % call(c, shared)
     except Exception as e:  # noqa
         return fmt.err(e)
 
 
-def oracle(c):
+def oracle(c, shared=None):
     if c["kind"] == "seq":
+        sh = {}       # rule objects live for the whole sequence: TotalisticRule(k, rule) is built once and reused
         for i, x in enumerate(c["seq"]):
-            bad = oracle(x)
+            bad = oracle(x, sh)
             if bad:
-                return "call %d of a sequence in one process: %s" % (i, bad)
+                return "call %d of a sequence in one process (rule objects reused): %s" % (i, bad)
         return None
     k, rule = c["k"], c["rule"]
     flat = [x for r in c["n"] for x in r]
@@ -106,7 +113,7 @@ def oracle(c):
     s = sum(x for x in flat if x is not None)
     in_range = rule < k ** (size * (k - 1) + 1)
     try:
-        got = call(c)
+        got = call(c, shared)
     except ValueError:
         return None if not in_range else "in-range rule number rejected with ValueError"
     except Exception as e:
